@@ -203,20 +203,31 @@ pub fn check(rec: &RunRecord, reg: &Reg, which: &Which, cells: &mut Cells) -> Ve
                     }
                     "remote_save" if which.c20 => {
                         cells.hit(format!("c20.save|{}|form{}", if input["ty"].as_str().unwrap_or("").starts_with("dyn:") { "dyn" } else { "contract" }, input["form"]));
-                        let want = format!("{{\"addr\":\"{}\"}}", input["addr"].as_str().unwrap_or(""));
-                        if output.as_str() != Some(&want) {
+                        // a JSON object with the single member `addr` holding the address string
+                        let want = json!({"addr": input["addr"]});
+                        let got: Value = output.as_str().and_then(|s| serde_json::from_str(s).ok()).unwrap_or(Value::Null);
+                        if got != want || !output.as_str().unwrap_or("").starts_with("{\"addr\":\"") {
                             out.push(Finding::new("C20", "c20.encoding", op.idx, format!("{caller_cid}: Remote<{}> (form {}) for {} was stored as {} instead of {}", input["ty"], input["form"], input["addr"], output, want)));
                         }
                     }
                     "remote_resave" if which.c20 => {
                         cells.hit(format!("c20.resave|{}", if input["ty"].as_str().unwrap_or("").starts_with("dyn:") { "dyn" } else { "contract" }));
                         let raw: Value = input["raw"].as_str().and_then(|s| serde_json::from_str(s).ok()).unwrap_or(Value::Null);
+                        if input["loaded"].is_null() {
+                            // the load failed: fine for an empty slot or foreign bytes, not for a handle's own encoding
+                            let is_handle = raw.as_object().map(|o| o.len() == 1 && o.get("addr").map(|a| a.is_string()).unwrap_or(false)).unwrap_or(false);
+                            if is_handle {
+                                out.push(Finding::new("C20", "c20.decode", op.idx, format!("{caller_cid}: bytes {} could not be read back as Remote<{}>: {}", input["raw"], input["ty"], input["error"])));
+                            }
+                            continue;
+                        }
                         let stored = raw["addr"].as_str().unwrap_or("<none>");
                         if input["loaded"].as_str() != Some(stored) {
                             out.push(Finding::new("C20", "c20.decode", op.idx, format!("{caller_cid}: bytes {} read back as Remote<{}> gave a handle to {}", input["raw"], input["ty"], input["loaded"])));
                         }
-                        let want = format!("{{\"addr\":\"{}\"}}", stored);
-                        if output.as_str() != Some(&want) {
+                        let want = json!({"addr": stored});
+                        let got: Value = output.as_str().and_then(|s| serde_json::from_str(s).ok()).unwrap_or(Value::Null);
+                        if got != want || !output.as_str().unwrap_or("").starts_with("{\"addr\":\"") {
                             out.push(Finding::new("C20", "c20.reencode", op.idx, format!("{caller_cid}: handle loaded from {} was stored again as {}", input["raw"], output)));
                         }
                     }
